@@ -98,6 +98,37 @@ def _r1b(ctx):
         U(s) == "instruction_form.port_uops = []" for s in fb[0].body)
     ctx.check(ok, "R1b", "malformed-entry fallback: zero pressure and no micro-ops", h.where(), "fallback path changed", h.qname, "fallback agreement")
     ctx.ok("R1b", "composed path: see C08-R1 (sum of averages <-> concatenation of micro-ops)", f.where())
+    # inside the balancer: wherever an instruction's pressure or micro-ops are replaced from another assignment,
+    # both are replaced together, from the same source, under the same condition
+    b = ctx.func(BAL)
+    repl = []
+    for n in ast.walk(b.node):
+        if isinstance(n, ast.Assign) and isinstance(n.targets[0], ast.Attribute) and n.targets[0].attr in ("port_pressure", "port_uops") \
+                and isinstance(n.targets[0].value, ast.Subscript):
+            repl.append(n)
+    by_recv = {}
+    for n in repl:
+        by_recv.setdefault(U(n.targets[0].value), []).append(n)
+    for recv, sts in sorted(by_recv.items()):
+        pp = [x for x in sts if x.targets[0].attr == "port_pressure"]
+        pu = [x for x in sts if x.targets[0].attr == "port_uops"]
+        for x in pp:
+            partner = None
+            for y in pu:
+                same_block = getattr(x, "_parent", None) is getattr(y, "_parent", None)
+                if not same_block:
+                    continue
+                vx, vy = U(x.value), U(y.value)
+                # from the same other instruction, or pressure = average(the micro-ops just stored)
+                if vx.replace(".port_pressure", "") == vy.replace(".port_uops", "") or vx.endswith(
+                        "average_port_pressure(%s.port_uops)" % recv):
+                    partner = y
+            ctx.check(partner is not None, "R1b", "%s: pressure and micro-ops are replaced together" % recv, b.where(x),
+                      "`%s` replaces the pressure of %s, but its port_uops are not replaced from the same source in the same "
+                      "block (unconditionally): the instruction then reports pressure from one port assignment and micro-ops of "
+                      "another, i.e. pressure on ports no micro-op of the selected assignment may use" % (U(x), recv), b.qname,
+                      "pairing for %s: %s" % (recv, U(x)))
+    ctx.floor("R1b", "pressure replacements inside the balancer", sum(1 for n in repl if n.targets[0].attr == "port_pressure"), 2)
 
 
 def balancer_parts(ctx):
